@@ -935,6 +935,23 @@ func registerFsimKinds(c *core.Ctx) {
 		}
 		return line, runUploadImpl(ms)
 	}})
+	// the same receivers without the model (message counts for which the extracted model's list appends are too slow)
+	c.Register(&core.Kind{Name: "fsim.download.impl", NoModel: true, Eval: func(p core.Params) (string, string) {
+		ms := fsimMsgs("download", p)
+		line := fmt.Sprintf("fsim.download.impl size=%s sz=%s dev=%s cseed=%s dseed=%s msgs=%d", p["size"], p["sz"], p["dev"], p["cseed"], p["dseed"], len(ms))
+		if p["lineonly"] != "" {
+			return line, ""
+		}
+		return line, runDownloadImpl(ms)
+	}})
+	c.Register(&core.Kind{Name: "fsim.upload.impl", NoModel: true, Eval: func(p core.Params) (string, string) {
+		ms := fsimMsgs("upload", p)
+		line := fmt.Sprintf("fsim.upload.impl size=%s sz=%s dev=%s cseed=%s dseed=%s msgs=%d", p["size"], p["sz"], p["dev"], p["cseed"], p["dseed"], len(ms))
+		if p["lineonly"] != "" {
+			return line, ""
+		}
+		return line, runUploadImpl(ms)
+	}})
 	c.Register(&core.Kind{Name: "fsim.wget", Eval: func(p core.Params) (string, string) {
 		name, haveName, sha, variant, body := wgetCaseParams(p)
 		mname := name
@@ -1486,19 +1503,23 @@ func RunC17(c *core.Ctx) {
 			panic("harness: names must be valid UTF-8")
 		}
 	}
-	maxMsgs := 70001
+	// the extracted model appends to a list per message: quadratic in time and memory (12000 messages: 35 s, 1 GB);
+	// beyond modelMsgs data messages the receivers run under the monitors only
+	modelMsgs := 6000
 	if quick {
-		maxMsgs = 1600
+		modelMsgs = 1600
 	}
 	type shape struct{ size, sz int }
 	var shapes []shape
 	for _, sz := range chunkSizes {
 		for _, s := range sizesFor(sz) {
-			if (s+sz-1)/sz <= maxMsgs {
-				shapes = append(shapes, shape{s, sz})
+			if quick && (s+sz-1)/sz > 40000 {
+				continue // 70000 one-byte messages: thorough tier only
 			}
+			shapes = append(shapes, shape{s, sz})
 		}
 	}
+	msgsOf := func(sh shape) int { return (sh.size + sh.sz - 1) / sh.sz }
 	c.Note("part 1: %d (size, chunk) shapes, %d deviations", len(shapes), len(fsimDeviations))
 
 	doGen := func(mod string, sh shape, dev, name string) {
@@ -1513,7 +1534,14 @@ func RunC17(c *core.Ctx) {
 			return
 		}
 		kind := "fsim." + mod
+		if len(fmIdx(ms, "data")) > modelMsgs {
+			kind += ".impl"
+		}
+		tc := time.Now()
 		o := c.Do(kind, p, mod+":"+dev)
+		if os.Getenv("C17_TIMING") != "" {
+			fmt.Fprintf(os.Stderr, "timing %s %d/%d %s %dms impl=%dms\n", kind, sh.size, sh.sz, dev, time.Since(tc).Milliseconds(), o.WallUs/1000)
+		}
 		c.Count("temp_left:"+mod, fmt.Sprintf("%s:%d", map[bool]string{true: "answered", false: "silent"}[strings.Contains(o.Impl, "error") || strings.Contains(o.Impl, "fail")], fsimTempLeft))
 		benign := fsimBenign(mod, dev)
 		if mod == "download" && name == "" {
@@ -1525,7 +1553,7 @@ func RunC17(c *core.Ctx) {
 	for _, mod := range []string{"download", "upload"} {
 		// every shape honestly
 		for _, sh := range shapes {
-			if quick && (sh.size+sh.sz-1)/sh.sz > 1100 && c.Rng.Intn(2) == 0 {
+			if quick && msgsOf(sh) > 1100 && msgsOf(sh) <= modelMsgs && c.Rng.Intn(2) == 0 {
 				continue
 			}
 			doGen(mod, sh, "honest", "file.bin")
@@ -1537,21 +1565,41 @@ func RunC17(c *core.Ctx) {
 			}
 		}
 		// every deviation
-		var small []shape
+		var small, large []shape
 		for _, sh := range shapes {
-			if n := (sh.size + sh.sz - 1) / sh.sz; (quick && n <= 450) || (!quick && n <= 3100) {
+			switch n := msgsOf(sh); {
+			case (quick && n <= 450) || (!quick && n <= 600):
 				small = append(small, sh)
+			default:
+				large = append(large, sh)
 			}
 		}
 		for _, dev := range fsimDeviations[1:] {
 			if quick {
 				for k := 0; k < 5; k++ {
-					doGen(mod, small[c.Rng.Intn(len(small))], dev, names[c.Rng.Intn(3)])
+					sh := small[c.Rng.Intn(len(small))]
+					for sh.size > 3000 && c.Rng.Intn(6) != 0 {
+						sh = small[c.Rng.Intn(len(small))] // the model spends ~0.5 s on a 70000-byte file: mostly small files in this tier
+					}
+					doGen(mod, sh, dev, names[c.Rng.Intn(3)])
 				}
 				continue
 			}
 			for _, sh := range small {
 				doGen(mod, sh, dev, names[c.Rng.Intn(len(names))])
+			}
+		}
+		// the shapes with many messages: a sample of deviations each
+		for _, sh := range large {
+			k := 8
+			if quick {
+				k = 1
+				if msgsOf(sh) <= modelMsgs && c.Rng.Intn(3) != 0 {
+					continue
+				}
+			}
+			for ; k > 0; k-- {
+				doGen(mod, sh, fsimDeviations[1+c.Rng.Intn(len(fsimDeviations)-1)], names[c.Rng.Intn(3)])
 			}
 		}
 	}
